@@ -259,7 +259,8 @@ theorem matcher_iff (aM : MatcherArgs) (t : Option TokObj) (toks : TokFn) (sim :
     (hlen : C.rows.length < 2 ^ 40)
     (hP : applyMatcher aM t toks sim cpu = .ok P)
     (ls rs : Row) (hls : ls ∈ l.rows) (hrs : rs ∈ r.rows)
-    (hpl : Present l aM.lAttr ls) (hpr : Present r aM.rAttr rs) :
+    (hpl : Present l aM.lAttr ls) (hpr : Present r aM.rAttr rs)
+    (hstr : t.isSome → StrColumn l aM.lAttr ∧ StrColumn r aM.rAttr) :
     (C13.InResult P (keyOf l aM.lKey ls) (keyOf r aM.rKey rs) ↔
       C13.InResult C (keyOf l aM.lKey ls) (keyOf r aM.rKey rs) ∧
       compFn aM.compOp (C05.simValue (C05.tokOf t toks) sim (valOf l aM.lAttr ls) (valOf r aM.rAttr rs))
@@ -276,7 +277,7 @@ theorem matcher_iff (aM : MatcherArgs) (t : Option TokObj) (toks : TokFn) (sim :
   have hcell : ∀ cr : Row, (cr.cell (C.colIdx aM.candLKey), cr.cell (C.colIdx aM.candRKey)) = rowKeys cr := by
     intro cr; rw [hcl, hcr]; rfl
   obtain ⟨hl, hr⟩ := cand_keys_mem aM C l r hcl hcr hsrc
-  obtain ⟨P', hP', hrows, -⟩ := C05.keeps_exactly aM t toks sim cpu C l r hv hl hr hlen
+  obtain ⟨P', hP', hrows, -⟩ := C05.keeps_exactly aM t toks sim cpu C l r hv hl hr hlen hstr
   rw [hP] at hP'
   cases Except.ok.inj hP'
   -- what a row of `P` naming the pair looks like
@@ -378,6 +379,7 @@ theorem stage2_total (mname : String) (a : JoinArgs) (t : TokObj) (l r : Frame)
   have hvM := stage2_valid mname a t l r C nj₂ hv hop c3 c4 t' ht
   obtain ⟨hl, hr⟩ := cand_keys_mem (stage2Args a C nj₂) C l r c1 c2 hsrc
   obtain ⟨P, hP, -⟩ := C05.keeps_exactly (stage2Args a C nj₂) t' toks sim cpu₂ C l r hvM hl hr hClen
+    (fun _ => ⟨(hcall.bodyOK hC).lstr, (hcall.bodyOK hC).rstr⟩)
   exact ⟨P, hP⟩
 
 /-! ## 5. the two pipelines, per pair of source rows, for an abstract SAFE first stage -/
@@ -451,6 +453,7 @@ theorem setsim_core (hm : SetMeasure m) (hv : validateJoin m.name a t = .ok (l, 
   have hsrc := candset_rows hcall am nj cpu₁ C hC
   have hvM := stage2_valid m.name a t l r C nj₂ hv hop6 c3 c4 (some t) (Or.inl rfl)
   have hM := matcher_iff (stage2Args a C nj₂) (some t) toks sim cpu₂ C l r P hvM c1 c2 hsrc hClen h2 ls rs hls hrs hpl hpr
+    (fun _ => ⟨(hcall.bodyOK hC).lstr, (hcall.bodyOK hC).rstr⟩)
   set A := tokensOf (toks true) l a.lAttr ls with hA
   set B := tokensOf (toks true) r a.rAttr rs with hB
   have hAn : A.Nodup := hs.nodup _
@@ -525,6 +528,7 @@ theorem ed_core (hv : validateJoin "EDIT_DISTANCE" a t = .ok (l, r))
   have hsrc := candset_rows hcall am nj cpu₁ C hC
   have hvM := stage2_valid "EDIT_DISTANCE" a t l r C nj₂ hv hop6 c3 c4 none (Or.inr rfl)
   have hM := matcher_iff (stage2Args a C nj₂) none toks sim cpu₂ C l r P hvM c1 c2 hsrc hClen h2 ls rs hls hrs hpl hpr
+    (fun _ => ⟨(hcall.bodyOK hC).lstr, (hcall.bodyOK hC).rstr⟩)
   have hqn : t.qval.toNat = q := by rw [hq]; exact Int.toNat_natCast q
   have hJ' := C13.ed_iff a t toks cpu l r tau hv (by rw [hthr]; rfl) hrows pad (by rw [hqn]; exact htok) J hJ
     ls rs hls hrs hpl hpr
